@@ -13,6 +13,10 @@ CONSTANTS T,    \* reserve that must remain before an instruction is written (BU
 
 Step(k, pos, len, cap) == [k |-> k, pos |-> pos, len |-> len, cap |-> cap]
 
+\* check_len_or_resize on a library-managed buffer: grow by as many quanta as the write position needs (asm_set_offset may have put
+\* it any distance beyond the capacity; from a position inside the buffer one quantum restores the reserve because Q >= T)
+GrowCap(p, cap) == LET d == p + T - cap IN cap + Q * (IF d <= Q THEN 1 ELSE (d + Q - 1) \div Q)
+
 \* One instruction of length len at position p.  m: "A" plain, "F" fitting, "C" counting ; c chunk size ;
 \* ext: caller-provided buffer ; n: padding rounds done.
 \* Result: ok, new position p, new capacity, steps (what the hooks report, in order), items (final layout), brk
@@ -21,7 +25,7 @@ One(p, cap, len, m, c, ext, n) ==
   LET need == p + T > cap IN
   IF need /\ ext
   THEN [ok |-> FALSE, p |-> p, cap |-> cap, steps |-> <<>>, items |-> <<>>, brk |-> 0]
-  ELSE LET cap2  == IF need THEN cap + Q ELSE cap
+  ELSE LET cap2  == IF need THEN GrowCap(p, cap) ELSE cap
            gs    == IF need THEN <<Step("grow", cap, cap2, cap2)>> ELSE <<>>
            free  == IF m = "A" THEN 0 ELSE c - (p % c)
            trial == IF m = "F" THEN <<Step("trial", p, len, cap2)>> ELSE <<>>
